@@ -279,6 +279,14 @@ def cpu_segment(b, cur, feats, live):
             o = b.fm([n, 1, 1, c], xt.dtype)
             b.net.ops.append(Op("QUANTIZE", [g], [o], ("QuantizeOptions", {})))
             feats.add("global_pool_float_cpu")
+        elif h % 2 == 0 and rng.random() < 0.7:
+            # quantised, kept on the CPU by batch 2 (fixup_pool_strides has already rewritten its options by then)
+            r = b.reshape(cur, [2, h // 2, w, c])
+            p = b.fm([2, 1, 1, c], xt.dtype, scale=xt.scales[0], zp=xt.zps[0])
+            b.net.ops.append(Op(rng.choice(["MAX_POOL_2D", "AVERAGE_POOL_2D"]), [r], [p], ("Pool2DOptions", dict(
+                Padding=rng.choice([0, 1]), StrideW=w, StrideH=h // 2, FilterWidth=w, FilterHeight=h // 2, FusedActivationFunction=0))))
+            o = b.reshape(p, [1, 2, 1, c])
+            feats.add("global_pool_batch2_cpu")
         else:
             o = b.fm([n, 1, 1, c], xt.dtype, scale=xt.scales[0], zp=xt.zps[0])
             b.net.ops.append(Op(rng.choice(["MAX_POOL_2D", "AVERAGE_POOL_2D"]), [cur], [o], ("Pool2DOptions", dict(
@@ -452,7 +460,7 @@ def c11_net(rng, idx=0):
         feats.add("input_is_output")
     # operator versions above 1 on a random subset
     for o in net.ops:
-        if rng.random() < 0.15:
+        if rng.random() < 0.04:
             o.version = rng.choice([2, 3, 4])
             feats.add("operator_version_gt1")
     if len(net.inputs) > 1:
